@@ -1,7 +1,8 @@
 (* C03 - simplicial complexes stay downward closed and duplicate-free. *)
 From Coq Require Import String ZArith List Bool.
 From XV Require Import Base.Label Base.LSet Base.ODict Base.Attr Base.Outcome Model.Hypergraph
-  Model.HgCheck Model.SimplicialComplex Model.ScCheck Proofs.HgViews Proofs.HgInv Proofs.ScInv Proofs.ScMaxOrder.
+  Model.HgCheck Model.SimplicialComplex Model.ScCheck Proofs.HgViews Proofs.HgInv Proofs.ScInv Proofs.ScMaxOrder
+  Model.PyIR Gen.Mutators Gen.ScMutators Proofs.ScMutatorSource.
 Import ListNotations.
 
 (* SInv = two-way consistent incidence (C01's invariant) + every sub-face with >= 2 nodes of
@@ -48,3 +49,18 @@ Example C03_nonvacuous :
   sinv_b (srun c03_example_ops hg_empty) = true /\ length (h_edge (srun c03_example_ops hg_empty)) = 8%nat.
 Proof. vm_compute. split; reflexivity. Qed.
 Print Assumptions C03_nonvacuous.
+
+(* THE SOURCE TIE for the three helpers through which SimplicialComplex writes its tables.  Gen/ScMutators.v holds the bodies of
+   _add_simplex, _add_face and _remove_simplex_id as programs of the statement language of Model/PyIR.v, regenerated from
+   xgi/core/simplicialcomplex.py on every run (harness/translate_scmutators.py, fail-closed).  Running them gives exactly the model:
+   _add_simplex(members, idx, **attr) = insert_edge idx members attr and _add_face(members) = insert_edge under the next automatic id
+   (members a frozenset, i.e. without repeats, and free of None), _remove_simplex_id(idx) = Hypergraph.remove_edge (it is the same
+   program, statement for statement) on every state satisfying the class invariant *)
+Theorem C03_table_helpers_are_source :
+  (forall ms e a s, NoDup ms -> existsb is_none ms = false -> is_none e = false ->
+     run_method_f src_sc_add_simplex ms (Some e) a s = ok (insert_edge e ms a s)) /\
+  (forall ms s, NoDup ms -> existsb is_none ms = false ->
+     run_method_f src_sc_add_face ms None [] s = ok (insert_edge (LInt (h_uid s)) ms [] (with_uid s (h_uid s + 1)%Z))) /\
+  (forall e s, Inv s -> run_method src_sc_remove_simplex_id [e] [] s = remove_edge1 e s).
+Proof. split; [exact sc_add_simplex_is_source|split; [exact sc_add_face_is_source|exact sc_remove_simplex_id_is_source]]. Qed.
+Print Assumptions C03_table_helpers_are_source.
